@@ -11,11 +11,14 @@ import (
 // Canonical hash of all package-level state of package astisub (frozen-globals invariant).
 // Maps are hashed order-insensitively, pointers by reachability; regexp.Regexp, strings.Replacer,
 // sync.* (except sync.Map, hashed through Range) and func values are opaque leaves (documented thread-safe stdlib objects with lazily built
-// internals; func values cannot be compared).
+// internals; func values cannot be compared).  A sync.Pool (a deterministic LIFO in the instrumented build, see
+// engine/instr) is opaque as well: what is parked in a pool may vanish at any time by the type's contract, so a
+// correct caller resets what it takes out and the parked content is no state a later call may depend on; a caller
+// that does depend on it returns something else than when run alone, which the sequential and concurrent stages see.
 
 var opaque = map[string]bool{
 	"regexp.Regexp": true, "strings.Replacer": true, "sync.Mutex": true, "sync.RWMutex": true, "sync.Once": true,
-	"sync.WaitGroup": true, "sync.Map": true, "sync.Pool": true, "sync.Cond": true, "time.Location": true,
+	"sync.WaitGroup": true, "sync.Map": true, "sync.Pool": true, "astisub.verifPool": true, "sync.Cond": true, "time.Location": true,
 }
 
 const prime = 1099511628211
